@@ -346,13 +346,14 @@ fn ill_dimensioned(e: &mut Eng) {
 
 pub fn run(_ctx: &Ctx) -> Vec<Eng> {
     let cfgname = format!(
-        "{}{}",
+        "{}{}{}",
         if cfg!(feature = "std") { "std" } else if cfg!(feature = "libm") { "libm" } else { "micromath" },
+        if cfg!(debug_assertions) { "" } else { "-rel" },
         if cfg!(feature = "dimcheck") { "" } else { "-nocheck" }
     );
     let mut e = Eng::new(
         &format!("c19-trace[{}]", cfgname),
-        "canonical traces (outcome categories, f32 values with -0 == +0 and all NaNs equal, i64 times) of well-dimensioned workloads: quantity arithmetic on the 49 grid units x 8x8 values, Time/integer conversions, State update/setters/Command conversions (8^3 states x 7 intervals), PIDControllerStream (all 12^3 and 14^3 histories x 4 gain sets), 15 stateful streams (all 5^4 histories), integral/derivative/to-state (18^3, 14^3), CommandPID (12^3 x 3), moving average and EWMA (14^3 x 8), exponent stream, motion profiles (every 7th grid profile x ~25 instants), devices (state and command rounds); one trace file per section, compared across the six builds by the driver; non-trivial = every case (each exercises real arithmetic)",
+        "canonical traces (outcome categories, f32 values with -0 == +0 and all NaNs equal, i64 times) of well-dimensioned workloads: quantity arithmetic on the 49 grid units x 8x8 values, Time/integer conversions, State update/setters/Command conversions (8^3 states x 7 intervals), PIDControllerStream (all 12^3 and 14^3 histories x 4 gain sets), 15 stateful streams (all 5^4 histories), integral/derivative/to-state (18^3, 14^3), CommandPID (12^3 x 3), moving average and EWMA (14^3 x 8), exponent stream, motion profiles (every 7th grid profile x ~25 instants), devices (state and command rounds); one trace file per section, compared across the eight builds by the driver; non-trivial = every case (each exercises real arithmetic)",
         "see rule",
     );
     let dir = std::env::var("VERIF_C19_DIR").unwrap_or_else(|_| "/tmp".to_string());
